@@ -5,8 +5,8 @@ import (
 	"testing"
 )
 
-// C09 (known finding): exec evaluates to the value given to the last return statement it executed;
-// a later if/range/try/include without a return clobbers it today.
+// C09: exec evaluates to the value given to the last return statement it executed;
+// a later if/range/try/include without a return used to clobber it.
 func TestDemoC09ReturnClobbered(t *testing.T) {
 	l := NewInMemLoader()
 	set := NewSet(l)
